@@ -245,8 +245,19 @@ class Gen:
                 step = ("lit", "%", step_v)
             else:
                 step_v = r.choice([1, 2, -1, -2])
-                # run-time computed step: a variable set just before the loop
+                # run-time computed step: a variable set just before the loop, also under a unary minus
+                # (the sign of the step is then not the sign the text suggests)
                 step = ("var", "ST%d%%" % my_id)
+                st_value = step_v
+                y = r.random()
+                if y < 0.25:
+                    step = ("un", "-", step)
+                    st_value = -step_v
+                elif y < 0.4:
+                    step = ("un", "-", ("par", step))
+                    st_value = -step_v
+                elif y < 0.5:
+                    step = ("par", step)
             if ctype == "!" and mode in ("pos", "neg") and r.random() < 0.5:
                 step_v = Fraction(step_v, 2)
                 step = ("lit", "!", step_v) if step_v.denominator != 1 else ("lit", "%", int(step_v))
@@ -269,7 +280,7 @@ class Gen:
             f = {"k": "for", "var": name, "lo": lo_e, "hi": hi_e, "step": step, "body": body, "next_var": r.random() < 0.5}
             after = {"k": "print", "items": [("e", ("var", name))]}
             if mode == "computed":
-                pre = {"k": "assign", "lhs": ("var", "ST%d%%" % my_id), "rhs": ("lit", "%", step_v)}
+                pre = {"k": "assign", "lhs": ("var", "ST%d%%" % my_id), "rhs": ("lit", "%", st_value)}
                 return {"k": "multi", "stmts": [pre, f, after]}
             return {"k": "multi", "stmts": [f, after]} if r.random() < 0.7 else f
         # while / do with an explicit counter
@@ -453,6 +464,9 @@ class GenCalls(Gen):
                 p = r.choice(subs)
                 self.n_calls += 1
                 return {"k": "callsub", "name": p["name"], "args": self.args_for(p)}
+        if self.scope is not None and r.random() < 0.05:
+            # leaves the procedure from whatever FOR / SELECT CASE / IF nesting this statement is in
+            return {"k": "exit", "what": "SUB" if self.scope["k"] == "sub" else "FUNCTION"}
         s = Gen.simple(self)
         if s["k"] == "read" and self.scope is not None:
             return self.print_stmt()
